@@ -143,6 +143,12 @@ type Program struct {
 	// argument that is not a call and is read after a later argument's call
 	// (not in source order) shows.
 	BareMix int `json:"bare_mix,omitempty"`
+	// GoTag: a Go release tag ("go1.21", "" for none) added to the file's build
+	// constraint (//go:build cff && go1.21). In a module whose go.mod says a
+	// newer Go it selects the older language version for the file - and for the
+	// generated file, which must carry the constraint over -, e.g. loop
+	// variables shared by all iterations below go1.22.
+	GoTag string `json:"go_tag,omitempty"`
 	// Base is the import path of the program's package (set by Files); programs
 	// with imported functions have helper packages Base/ha, Base/hb, Base/hc.
 	Base string `json:"-"`
